@@ -327,7 +327,11 @@ pub fn hit_objects(r: &mut Rng, o: &Opts, mode: u8, out: &mut Vec<String>) -> f6
         let y = r.range(0, 384);
         let sound = if l >= 1 && r.chance(1, 10) { int(r, l, 0, 255) } else { r.pick(&["0", "2", "4", "8", "6", "12", "14", "1"]).to_string() };
         let nc = if r.chance(1, 4) { 4 } else { 0 };
-        let off = if r.chance(1, 8) { (r.range(1, 7) as i64) << 4 } else { 0 };
+        let roll = r.next() % 8;
+        let off = if roll == 0 { (r.range(1, 7) as i64) << 4 } else { 0 };
+        // type bytes that carry more than one kind flag (the decoder's precedence is circle >
+        // slider > spinner > hold); only in the hostile levels
+        let xk: i64 = if roll == 1 && l >= 1 { *r.pick(&[8, 128, 136, 1, 2, 3, 130]) } else { 0 };
         let ts = if l >= 1 && r.chance(1, 12) { float(r, l, -1000.0, 100000.0) } else { format!("{}", t) };
         let xs = if l >= 1 && r.chance(1, 15) { float(r, l, -10.0, 600.0) } else { x.to_string() };
         let kind = match mode {
@@ -335,11 +339,11 @@ pub fn hit_objects(r: &mut Rng, o: &Opts, mode: u8, out: &mut Vec<String>) -> f6
             _ => *r.pick(&[0, 0, 0, 1, 1, 2]),
         };
         match kind {
-            0 => out.push(format!("{xs},{y},{ts},{},{sound},{}", 1 + nc + off, extras(r, l))),
+            0 => out.push(format!("{xs},{y},{ts},{},{sound},{}", (1 + nc + off) | xk, extras(r, l))),
             1 => {
                 let reps = if l >= 1 && r.chance(1, 10) { int(r, l, 0, 9001) } else { r.range(1, 4).to_string() };
                 let len = if l >= 1 && r.chance(1, 8) { float(r, l, -10.0, 1000.0) } else { format!("{}", (r.unit() * 400.0 + 20.0).round()) };
-                let mut line = format!("{xs},{y},{ts},{},{sound},{},{reps},{len}", 2 + nc + off, path(r, l, x, y));
+                let mut line = format!("{xs},{y},{ts},{},{sound},{},{reps},{len}", (2 + nc + off) | xk, path(r, l, x, y));
                 if r.chance(1, 2) {
                     let nodes = reps.parse::<i64>().unwrap_or(1).clamp(1, 6) + 1;
                     let es: Vec<String> = (0..nodes).map(|_| r.pick(&["0", "2", "4", "8", "10"]).to_string()).collect();
@@ -350,7 +354,7 @@ pub fn hit_objects(r: &mut Rng, o: &Opts, mode: u8, out: &mut Vec<String>) -> f6
             }
             2 => {
                 let end = t + r.range(100, 3000) as f64;
-                out.push(format!("256,192,{ts},{},{sound},{end},{}", 8 + nc, extras(r, l)));
+                out.push(format!("256,192,{ts},{},{sound},{end},{}", (8 + nc) | (xk & !3), extras(r, l)));
                 t = end;
             }
             _ => {
